@@ -242,6 +242,53 @@ mut('C13', 'grid_filter', "def _filter_function(filter):", "def _filter_function
 mut('C13', 'grid_filter', "    return _filter_function(filter).get()", "    return _filter_function(filter.strip()[:32]).get()")
 mut('C13', 'grid_filter', "        _id_function += 1\n", "        _id_function += 0\n")
 
+# ---- C11 -----------------------------------------------------------------------------
+mut('C11', 'grid_filter', 'hs_condAnd = (hs_term + ZeroOrMore(Literal("and") + hs_term)).setParseAction(_fold_left)',
+    'hs_condAnd = (hs_term + ZeroOrMore(Literal("and") + hs_term)).setParseAction(\n    lambda toks: FilterBinary("and", toks[0], toks[2]) if len(toks) > 1 else toks[0])', name='revert fix: and fold')
+mut('C11', 'grid_filter', "for i in range(1, len(toks) - 1, 2):", "for i in range(1, len(toks) - 2, 2):", name='fold stops one operand early')
+mut('C11', 'grid_filter', "node = FilterBinary(toks[i], node, toks[i + 1])", "node = FilterBinary(toks[i], toks[i - 1], toks[i + 1])", name='fold does not accumulate')
+mut('C11', 'grid_filter', 'hs_condOr = (hs_condAnd + ZeroOrMore(Literal("or") + hs_condAnd))', 'hs_condOr = (hs_term + ZeroOrMore(Literal("or") + hs_term))', name='or over terms')
+mut('C11', 'grid_filter', "hs_term = hs_parens | hs_missing | hs_cmp | hs_has", "hs_term = hs_parens | hs_missing | hs_has | hs_cmp")
+mut('C11', 'grid_filter', 'hs_cmpOp = Literal("==") | Literal("!=") | Literal("<=") | Literal(">=") | Literal("<") | Literal(">")',
+    'hs_cmpOp = Literal("==") | Literal("!=") | Literal("<") | Literal("<=") | Literal(">=") | Literal(">")')
+mut('C11', 'grid_filter', "lambda toks: FilterBinary(toks[1], toks[0], toks[2])", "lambda toks: FilterBinary(toks[1], toks[2], toks[0])")
+mut('C11', 'grid_filter', "def_filter.append(') !=  id(NOT_FOUND))')", "def_filter.append(') ==  id(NOT_FOUND))')")
+mut('C11', 'grid_filter', """        def_filter.append("(")
+        def_filter.extend(_generate_filter_in_python(node.left, []))
+        def_filter.append(" " + node.op + " ")
+        def_filter.extend(_generate_filter_in_python(node.right, []))
+        def_filter.append(")")""", """        def_filter.extend(_generate_filter_in_python(node.left, []))
+        def_filter.append(" " + node.op + " ")
+        def_filter.extend(_generate_filter_in_python(node.right, []))""", name='no parentheses')
+mut('C11', 'grid_filter', "    '<': operator.lt, '<=': operator.le,", "    '<': operator.le, '<=': operator.lt,")
+mut('C11', 'grid_filter', "        return _COMPARE_OPS[op](left, right)\n    except TypeError:", "        return _COMPARE_OPS[op](left, right)\n    except KeyError:")
+mut('C11', 'grid_filter', "    except (KeyError, TypeError, IndexError):", "    except KeyError:", name='revert fix: _get_path TypeError')
+mut('C11', 'grid_filter', """    def __lt__(self, other):
+        return False
+""", "", name='sentinel without __lt__')
+mut('C11', 'grid_filter', """    def __ne__(self, other):
+        return False
+
+    def __lt__""", """    def __ne__(self, other):
+        return True
+
+    def __lt__""", name='sentinel != is True')
+mut('C11', 'grid_filter', "if i != len(paths)-1 and isinstance(obj, Ref):", "if isinstance(obj, Ref):")
+mut('C11', 'grid_filter', "import datetime\n", "from datetime import datetime\n", name='revert fix: datetime module')
+mut('C11', 'grid_filter', """.setParseAction(
+    lambda toks: [_unescape(toks[0], uri=False)]
+)""", "", name='revert fix: str unescape')
+mut('C11', 'grid_filter', "lambda toks: Uri(_unescape(toks[0], uri=True))", "lambda toks: Uri(_unescape(toks[0], uri=False))")
+mut('C11', 'grid_filter', r"""hs_strChar = Regex(r"([^\x00-\x1f\\\"]|\\[bfnrt\\\"$]|\\[uU][0-9a-fA-F]{4})")""",
+    r"""hs_strChar = Regex(r"([^\x00-\x1f\\\"]|\\[bfnrt\\\"]|\\[uU][0-9a-fA-F]{4})")""", name='filter strChar loses \\$')
+mut('C11', 'grid', "            if limit and len(result)==limit:", "            if limit and len(result)>limit:")
+mut('C11', 'grid', "            if fn(self, row):\n                result.append(row)", "            if not fn(self, row):\n                result.append(row)")
+mut('C11', 'grid', "        for row in self._row:\n            if fn(self, row):", "        for row in reversed(self._row):\n            if fn(self, row):")
+mut('C11', 'grid', """        result = Grid(version=self.version, metadata=self.metadata, columns=self.column)
+        fn = filter_function(filter)""", """        result = Grid(version=self.version, columns=self.column)
+        fn = filter_function(filter)""")
+mut('C11', 'grid_filter', "           hs_number | hs_na | hs_null | hs_marker | hs_bool | \\", "           hs_number | hs_null | hs_na | hs_marker | hs_bool | \\")
+
 
 def run(selected):
     base_cache = {}
